@@ -1,6 +1,8 @@
 package conc
 
 import (
+	"crypto/sha1" //nolint:gosec
+	"encoding/hex"
 	"fmt"
 	"sort"
 
@@ -50,6 +52,23 @@ type AbsApp struct {
 	Thr     int      `json:"thr"`
 }
 
+// AbsHook is a hook declared in the root.
+type AbsHook struct {
+	Name    string   `json:"name"`
+	Stages  []string `json:"stages"` // "pre" (pre-commit) | "push" (pre-push)
+	Pr      []string `json:"pr"`
+	Script  string   `json:"script"`
+	Timeout int      `json:"timeout"`
+}
+
+// GitBlobID is the SHA-1 object id Git gives a blob with this content.
+func GitBlobID(content []byte) string {
+	h := sha1.New() //nolint:gosec
+	fmt.Fprintf(h, "blob %d\x00", len(content))
+	h.Write(content)
+	return hex.EncodeToString(h.Sum(nil))
+}
+
 // AbsPolicy is an abstract policy state.
 type AbsPolicy struct {
 	RootPr  []string             `json:"rootPr"`
@@ -63,6 +82,7 @@ type AbsPolicy struct {
 	Globals []AbsGlobal          `json:"globals"`
 	Persons map[string]AbsPerson `json:"persons"`
 	Apps    map[string]AbsApp    `json:"apps"`
+	Hooks   []AbsHook            `json:"hooks"`
 	V01     bool                 `json:"v01"`
 }
 
@@ -159,6 +179,23 @@ func (w *World) rootV02(p *AbsPolicy) *tufv02.RootMetadata {
 			rm.GitHubApps = map[string]*tufv02.GitHubApp{}
 		}
 		rm.GitHubApps[name] = &tufv02.GitHubApp{Trusted: app.Trusted, PrincipalIDs: w.ids(app.Pr), Threshold: app.Thr}
+	}
+	for _, h := range p.Hooks {
+		stages := []tuf.HookStage{}
+		for _, st := range h.Stages {
+			if st == "pre" {
+				stages = append(stages, tuf.HookStagePreCommit)
+			} else {
+				stages = append(stages, tuf.HookStagePrePush)
+			}
+		}
+		ids := []string{}
+		for _, n := range h.Pr {
+			ids = append(ids, w.PrincipalID(n))
+		}
+		if _, err := rm.AddHook(stages, h.Name, ids, map[string]string{"gitBlob": GitBlobID([]byte(h.Script))}, tuf.HookEnvironmentLua, h.Timeout); err != nil {
+			panic(err)
+		}
 	}
 	return rm
 }
